@@ -247,6 +247,7 @@ template <class S> static void model_tie(Out& out, S& s, const std::string& head
     (void) nev; out.corr(req, resp); out.count("model_tie_requests");
 }
 
+static double g_lob_tol = 1e-7;            // LOBPCG tol_div_n: the class default; the probe below uses 1e-9
 static const int REAL_RULES[5] = {0, 3, 4, 7, 8};
 static const int CPLX_RULES[6] = {0, 1, 2, 4, 5, 6};
 static const char* FAM[14] = {"SymEigsSolver", "HermEigsSolver", "SymEigsShiftSolver", "GenEigsSolver", "GenEigsRealShiftSolver", "GenEigsComplexShiftSolver",
@@ -355,12 +356,16 @@ static Res one_case(Out& out, Obs& obs, uint64_t seed, const std::string& tier, 
               Vec d = sym_spectrum(r, n, 7, 0); Mat A = sym_from(r, d); Eigen::SparseMatrix<double> As = A.sparseView(); Mat X0(n, nev); for (int j = 0; j < nev; j++) for (int i = 0; i < n; i++) X0(i, j) = r.sym();
               Eigen::SparseMatrix<double> Xs = X0.sparseView(); Spectra::LOBPCGSolver<double> s(As, Xs); out.count("oracle_runs"); std::string ex;
               { Mat Ti = inverse_ld(A, 0.0); Ti = (0.5 * (Ti + Ti.transpose())).eval(); Eigen::SparseMatrix<double> Ts = Ti.sparseView(); s.setPreconditioner(Ts); }   // A is positive definite here: preconditioner A^-1
-              try { s.compute(1000, 1e-9); } catch (const std::exception& e) { ex = e.what(); }
+              try { s.compute(1000, g_lob_tol); } catch (const std::exception& e) { ex = e.what(); }
               if (!ex.empty()) { out.count("run_exception"); out.count(std::string("exc_") + FAM[fam]); res.st = 4; break; }
               if (s.info() != 0) { out.count("not_successful"); out.count(std::string("notconv_") + FAM[fam] + "_" + RN[rule]); res.st = 3; break; }
               Vec ev = s.eigenvalues(); std::vector<CL> ret; for (long i = 0; i < ev.size() && i < nev; i++) ret.push_back(CL(ev[i], 0));
+              { Mat X = s.eigenvectors(); if (X.norm() == 0.0) { std::ostringstream tl; tl << g_lob_tol;
+                  out.fail("zero-iterate", std::string(FAM[fam]) + " n=" + str(n) + " k=" + str(nev) + " tol_div_n=" + tl.str() + ": info() = Success with the iterate X = 0, eigenvalues() = 0, residuals() = 0 (the iteration stagnated above the tolerance, lost B-orthonormality, diverged and collapsed)", cj(c.id, ",\"pred\":\"zero-iterate\"")); res.st = 1; res.msg = "zero-iterate"; res.rj.clear(); res.st = 4; break; } }
               if ((long) ret.size() != nev) { out.fail("count", std::string(FAM[fam]) + ": Success but " + str(ret.size()) + " eigenvalues", cj(c.id, ",\"pred\":\"count\"")); res.st = 1; res.msg = "count"; break; }
-              { std::string msg; int j = judge(out, c.id, ref_sym(A), ident, ret, false, 0, msg); res = finish_judge(out, c.id, j, msg); }
+              { std::string msg; int j = judge(out, c.id, ref_sym(A), ident, ret, false, 0, msg);
+                if (j == 1) { Mat X = s.eigenvectors(); Mat Rs = s.residuals(); msg += " [LOBPCG diagnostics: ||X||_F = " + str((double) X.norm()) + ", X " + str((long) X.rows()) + "x" + str((long) X.cols()) + ", ||residuals||_F = " + str((double) Rs.norm()) + "]"; }
+                res = finish_judge(out, c.id, j, msg); }
               break; }
     }
     res.rj = cj(c.id);
@@ -389,6 +394,8 @@ static void part_solver(const Args& a, Out& out) {
         std::vector<int> rules; if (fam == 12) rules = {3}; else if (fam == 13) rules = {7}; else if (cplx) rules.assign(CPLX_RULES, CPLX_RULES + 6); else rules.assign(REAL_RULES, REAL_RULES + 5);
         for (int rule : rules) for (int rep = 0; rep < reps; rep++) run_pair(out, obs, a.seed, a.tier, fam, rule, rep, true);
     }
+    // fixed probe (seed-independent): LOBPCG with a tolerance it cannot reach (tol_div_n = 1e-9, n = 100, exact-inverse preconditioner)
+    { g_lob_tol = 1e-9; try { one_case(out, obs, 2, "thorough", 13, 7, 11, false, false); } catch (const std::exception&) { out.count("case_exception"); } g_lob_tol = 1e-7; out.count("lobpcg_strict_probe"); }
     Spectra::verif::observer() = nullptr;
 }
 
@@ -400,7 +407,7 @@ int main(int argc, char** argv) {
     if (!args.replay.empty()) {
         std::ifstream f(args.replay); std::stringstream ss; ss << f.rdbuf(); std::string s = ss.str(); long fam, rule, rep, seed;
         if (jint(s, "fam", fam) && jint(s, "rule", rule) && jint(s, "rep", rep) && jint(s, "seed", seed)) {
-            std::string tier = s.find("\"tier\":\"thorough\"") != std::string::npos ? "thorough" : "quick";
+            std::string tier = (s.find("\"tier\":\"thorough\"") != std::string::npos || s.find("\"tier\": \"thorough\"") != std::string::npos) ? "thorough" : "quick";
             Obs obs; Spectra::verif::observer() = &obs; run_pair(out, obs, (uint64_t) seed, tier, (int) fam, (int) rule, (int) rep, false); Spectra::verif::observer() = nullptr;
         } else out.count("replay_unparsable");
         out.finish(); return 0;
